@@ -1,6 +1,8 @@
 package h
 
 import (
+	"github.com/xjslang/xjs/lexer"
+	"github.com/xjslang/xjs/parser"
 	"github.com/xjslang/xjs/token"
 	"github.com/xjslang/xjs/zzverif/sym"
 )
@@ -122,5 +124,70 @@ func ZZH15Comments() {
 		want += len(nonEmpty(t.LeadingComments))
 	}
 	sym.Assert(total == want, "each-comment-appears-exactly-once")
+	sym.Cover("end")
+}
+
+// ZZH15Text: the same at text level for the places where the lexer attaches a
+// comment: the real lexer, parser and printer run on a source text with one
+// `//` comment of 1..2 arbitrary printable bytes (trailing or own-line, before
+// a statement, before a closing brace, before the end of the input with and
+// without a final line break).
+func ZZH15Text() {
+	n := 1 + sym.Choose("commentlen", sym.Param("commentlen", 2))
+	c := sym.String("comment", n)
+	for i := 0; i < n; i++ {
+		sym.Assume(sym.And(c[i] >= 0x20, c[i] <= 0x7e))
+	}
+	sym.Assume(c[n-1] != ' ')
+	shapes := []string{
+		"a;//" + c,
+		"a;//" + c + "\n",
+		"a;\n//" + c,
+		"a;\n//" + c + "\nb;",
+		"a; //" + c + "\nb;",
+		"{\na;\n//" + c + "\n}",
+		"//" + c + "\na;",
+		"function f(){\n//" + c + "\nreturn a;\n}",
+	}
+	k := sym.Choose("shape", len(shapes))
+	src := shapes[k]
+	p := parser.NewBuilder(lexer.NewBuilder()).Build(src)
+	prog, err := p.ParseProgram()
+	sym.Observe("src", src, err != nil)
+	sym.Assert(err == nil, "commented-program-accepted")
+	if err != nil {
+		return
+	}
+	pretty := newCompiler(true, sym.Bool("semi"), 2).Compile(prog).Code
+	compact := newCompiler(false, true, 0).Compile(prog).Code
+	sym.Observe("out", pretty, compact)
+	want := RScan(src)
+	got := RScan(pretty)
+	// same code tokens (terminators aside), same comments in front of the same token
+	w, g := dropSemis(want), dropSemis(got)
+	sym.Assert(len(w) == len(g), "pretty-output-has-the-source-tokens")
+	total := 0
+	for _, t := range got {
+		total += len(t.Comments)
+	}
+	sym.Assert(total == 1, "comment-appears-exactly-once")
+	if len(w) == len(g) {
+		for i := range w {
+			sym.Assert(sym.EqStr(w[i].Text, g[i].Text), "pretty-output-has-the-source-tokens")
+			sym.Assert(len(w[i].Comments) == len(g[i].Comments), "comment-kept-before-the-same-token")
+			if len(w[i].Comments) == 1 && len(g[i].Comments) == 1 {
+				sym.Assert(sym.EqStr(w[i].Comments[0], g[i].Comments[0]), "comment-text-verbatim")
+			}
+		}
+	}
+	// the end of input carries its comments too
+	we, ge := want[len(want)-1], got[len(got)-1]
+	sym.Assert(len(we.Comments) == len(ge.Comments), "comment-kept-before-the-end-of-input")
+	if len(we.Comments) == 1 && len(ge.Comments) == 1 {
+		sym.Assert(sym.EqStr(we.Comments[0], ge.Comments[0]), "comment-text-verbatim")
+	}
+	for _, t := range RScan(compact) {
+		sym.Assert(len(t.Comments) == 0, "compact-output-has-no-comments")
+	}
 	sym.Cover("end")
 }
